@@ -147,7 +147,27 @@ def run(prop, tier):
             records.append(dict(id=rid, kind="syn", **{"class": c["class"]}, outcome=outcome, sidefx=sidefx))
             index[rid] = dict(string=ps_, cls=c["class"], outcome=outcome, tree=c["tree"], entry="evaluate_plot_string")
             rid += 1
+        # the guards must not depend on how the interpreter was started: the same strings under `python -O` (which strips assert statements)
         import json as _json
+        import subprocess
+        import sys as _sys
+
+        ostrings = [["fn", tmpl.format(c="x")] for tmpl in BAD.values()] + [["plot", "[%s]" % b_] for b_ in PLOTBAD.values()] + [["plot", "{%s: 's'}" % PLOTBAD["call"]]]
+        code = ("import sys, json\nfrom atomica.function_parser import parse_function\nfrom atomica.utils import evaluate_plot_string\nout = []\n"
+                "for kind, s in json.load(sys.stdin):\n    try:\n        (parse_function if kind == 'fn' else evaluate_plot_string)(s)\n        out.append('accepted')\n"
+                "    except Exception:\n        out.append('rejected')\nprint('RESULT ' + json.dumps(out))\n")
+        before_ = set(os.listdir(wd))
+        p_ = subprocess.run([_sys.executable, "-O", "-c", code], input=_json.dumps(ostrings), cwd=wd, env=dict(os.environ, PYTHONPATH=C.REPO, MPLBACKEND="agg"), stdout=subprocess.PIPE, stderr=subprocess.STDOUT, text=True, timeout=600)
+        lines_ = [l for l in p_.stdout.splitlines() if l.startswith("RESULT ")]
+        if not lines_:
+            raise C.MachineryError("python -O probe failed:\n" + p_.stdout[-1500:])
+        sidefx_ = set(os.listdir(wd)) != before_
+        for f_ in set(os.listdir(wd)) - before_:
+            os.remove(os.path.join(wd, f_))
+        for (kind_, str_), outcome in zip(ostrings, _json.loads(lines_[-1][7:])):
+            records.append(dict(id=rid, kind="syn", **{"class": "reject"}, outcome=outcome, sidefx=bool(sidefx_ and outcome == "accepted")))
+            index[rid] = dict(string=str_, cls="reject", outcome=outcome, entry="%s under python -O" % ("parse_function" if kind_ == "fn" else "evaluate_plot_string"), tree=["bad", "python -O"])
+            rid += 1
 
         # every arithmetic tree as it is, and with the variable x renamed to t (the name of the time variable: to the parser a name like any
         # other - it is a dependency and is looked up in what the caller supplies)
